@@ -49,7 +49,7 @@ TRUSTED_EXTRA = ["networkx.random_regular_graph (third-party generator; its resu
 NOTES = []
 
 TT_MAX = 20            # truth table up to this many variables
-DPLL_BUDGET = 60000    # decisions+propagation rounds
+DPLL_BUDGET = 30000    # decisions+propagation rounds
 # effort limits of the brute-force specifications (replay uses the generous defaults; `cases` lowers
 # them in the quick tier)
 LIMITS = {"ram_vars": 15, "colourings": 70000}
@@ -329,7 +329,7 @@ def oracle_vdw(F, N, K):
             return {"documented_variables": N, "got": n}
         if labs != ["x_{{{}}}".format(i) for i in range(1, N + 1)]:
             return {"labels": labs[:10]}
-        got = sat_set(F)
+        got = sat_set(F) if N <= 17 else None
         if got is None:
             return None
         spec = set()
@@ -632,7 +632,7 @@ def cases(ctx):
     thorough = tier == "thorough"
     rng = common.sub_rng(seed, "C03_ramsey")
     LIMITS["ram_vars"] = 15 if thorough else 10
-    LIMITS["colourings"] = 70000 if thorough else 7000
+    LIMITS["colourings"] = 20000 if thorough else 7000
     infos = []
     both = (False, True)
 
@@ -673,7 +673,7 @@ def cases(ctx):
             for k2 in range(1, 5):
                 for opb in both:
                     infos.append(("r_vdw", dict(N=N, K=[k1, k2], opb=opb)))
-    n_multi = 260 if not thorough else 2500
+    n_multi = 260 if not thorough else 1500
     for _ in range(n_multi):
         C = rng.choice([3, 3, 4])
         K = [rng.randint(1, 4) for _ in range(C)]
@@ -706,7 +706,7 @@ def cases(ctx):
     shapes = [(2, 1), (3, 2), (4, 1), (4, 2), (4, 3), (5, 2), (5, 4), (6, 3)]
     if thorough:
         shapes += [(6, 1), (6, 2), (6, 4), (6, 5), (7, 2), (7, 4), (8, 3)]
-    reps = 28 if not thorough else 260
+    reps = 28 if not thorough else 170
     for i in range(reps):
         v, d = shapes[i % len(shapes)] if i < 2 * len(shapes) else rng.choice(shapes)
         ny = rng.choice([1, 2, 2, 3, 4]) if i >= 4 else [2, 2, 3, 1][i]
